@@ -222,7 +222,7 @@ def _cfg_make(tier, seed):
             {"shape": (3, 1), "nvars": 0, "nextra": 1, "coords2d": False},
         ]
     else:
-        for sh in [(1, 1), (1, 3), (3, 1), (2, 3), (3, 2), (3, 3)]:
+        for sh in [(1, 1), (1, 3), (3, 1), (2, 3), (3, 2), (3, 3), (4, 3), (2, 5)]:
             for nv, nx in ((1, 0), (2, 1), (4, 3), (0, 1)):
                 for c2 in (False, True):
                     out.append({"shape": sh, "nvars": nv, "nextra": nx, "coords2d": c2, "dims": ("lat", "lon") if c2 else ("northing", "easting"), "fortran": bool(nv == 2 and not c2)})
